@@ -450,6 +450,73 @@ def fam_infer_dtype(chk, da):
     del CALLS[:]
 
 
+def fam_user_function_apis(chk, da):
+    """every public entry point that takes a USER FUNCTION, called with all the metadata it could ask for (dtype / meta / shape /
+    chunks / output_dtypes given explicitly): building and inspecting the result must not call the function on real elements"""
+    seen = []
+
+    def rec(kind):
+        def f(*a, **k):
+            sizes = [int(v.size) for v in list(a) + list(k.values()) if isinstance(v, np.ndarray)]
+            seen.append((kind, sizes))
+            for v in a:
+                if isinstance(v, np.ndarray):
+                    return v
+            return np.zeros(())
+        return f
+
+    def red1(kind):
+        def f(v):
+            seen.append((kind, [int(np.size(v))]))
+            return np.asarray(v).sum()
+        return f
+
+    x1 = da.from_array(np.arange(12.0), chunks=4)
+    x2 = da.from_array(np.arange(12.0).reshape(3, 4), chunks=(2, 2))
+    apis = [
+        ("apply_along_axis(shape=(),dtype)", lambda: da.apply_along_axis(red1("aaa0"), 0, x2, dtype="f8", shape=())),
+        ("apply_along_axis(shape=(),dtype,axis=1)", lambda: da.apply_along_axis(red1("aaa1"), 1, x2, dtype="f8", shape=())),
+        ("apply_along_axis(shape=(2,),dtype)", lambda: da.apply_along_axis(lambda v: (seen.append(("aaa2", [int(v.size)])), v[:2])[1], 0, x2, dtype="f8", shape=(2,))),
+        ("map_blocks(dtype)", lambda: x2.map_blocks(rec("mb"), dtype="f8")),
+        ("map_blocks(dtype,meta)", lambda: x2.map_blocks(rec("mbm"), dtype="f8", meta=np.empty((0, 0)))),
+        ("map_blocks(dtype,chunks,drop_axis)", lambda: x2.map_blocks(rec("mbc"), dtype="f8", chunks=(2,), drop_axis=1)),
+        ("map_blocks(two arrays,dtype)", lambda: da.map_blocks(rec("mb2"), x2, x2 + 1, dtype="f8")),
+        ("map_overlap(dtype)", lambda: da.map_overlap(rec("mo"), x2, depth=1, boundary="reflect", dtype="f8")),
+        ("map_overlap(dtype,meta)", lambda: da.map_overlap(rec("mom"), x1, depth=1, boundary=0.0, dtype="f8", meta=np.empty((0,)))),
+        ("blockwise(dtype)", lambda: da.blockwise(rec("bw"), "ij", x2, "ij", dtype="f8")),
+        ("blockwise(dtype,meta)", lambda: da.blockwise(rec("bwm"), "ij", x2, "ij", dtype="f8", meta=np.empty((0, 0)))),
+        ("blockwise(contract,dtype,concatenate)", lambda: da.blockwise(rec("bwc"), "i", x2, "ij", dtype="f8", concatenate=True)),
+        ("reduction(dtype)", lambda: da.reduction(x2, rec("redc"), rec("reda"), dtype="f8")),
+        ("reduction(dtype,meta,axis)", lambda: da.reduction(x2, rec("redc2"), rec("reda2"), axis=0, dtype="f8", meta=np.empty((0,)))),
+        ("apply_gufunc(output_dtypes)", lambda: da.apply_gufunc(rec("gu"), "(i)->(i)", x2, output_dtypes="f8")),
+        ("apply_gufunc(reduce,output_dtypes)", lambda: da.apply_gufunc(lambda v: (seen.append(("gur", [int(v.size)])), v.sum(-1))[1], "(i)->()", x2.rechunk((2, 4)), output_dtypes="f8")),
+        ("fromfunction(dtype)", lambda: da.fromfunction(lambda i, j: (seen.append(("ff", [int(i.size)])), i + j)[1], shape=(4, 4), chunks=2, dtype="f8")),
+        ("piecewise", lambda: da.piecewise(x1, [x1 < 3, x1 >= 3], [rec("pw1"), rec("pw2")])),
+        ("cumreduction(dtype)", lambda: da.cumreduction(np.cumsum, rec("cumb"), 0, x1, axis=0, dtype="f8")),
+        ("coarsen", lambda: da.coarsen(lambda v, axis=None: (seen.append(("co", [int(v.size)])), v.sum(axis=axis))[1], x1, {0: 2})),
+    ]
+    for label, mk in apis:
+        del seen[:]
+        try:
+            with warnings.catch_warnings():
+                warnings.simplefilter("ignore")
+                y = mk()
+                built = list(seen)
+                inspect_everything(y)
+        except Exception as e:  # noqa: BLE001
+            chk.count("user-function-api:skipped:" + label.split("(")[0] + ":" + type(e).__name__)
+            continue
+        chk.case(("user-function-api", label), nontrivial=True)
+        chk.count("user-function-api")
+        bad = [c for c in seen if any(n > 0 for n in c[1])]
+        if bad:
+            chk.violation(f"{label}: the user function was called on non-empty data {bad[0]} while only building / inspecting",
+                          {"api": label, "calls": bad[:4], "during_construction": [c for c in built if any(n > 0 for n in c[1])][:2]},
+                          signature={"class": "block-function-called", "phase": "user-function-api", "api": label})
+        else:
+            chk.traces_validated += 1
+
+
 def fam_meta_model(chk, da):
     fam_meta_from_array(chk, da)
     fam_from_array_meta(chk, da)
@@ -476,6 +543,7 @@ def run(chk: Check):
                        "dtypes are not modelled (astype keeps shapes and makes no request)"]
     chk.run_proofs()
     fam_meta_model(chk, da)
+    fam_user_function_apis(chk, da)
     rng = chk.rng
     # corpus: F31 0-d source
     log0 = []
